@@ -227,6 +227,7 @@ def real_downstream(case):
                                          multimap_strategy=MR.MultimapResolvingStrategy.take_best)
         dp.reference_record_dict = collections.OrderedDict((nm, "A" * ln) for nm, ln in zip(names, case["lengths"]))
         dp.alignment_stat_counter = ST.EnumStats()
+        dp.gffutils_db = None           # read by warn_about_skipped_sequences (fix b09aace)
 
         def fake_collect(sample_, chr_id, args_):
             objs = ras[chr_id]
@@ -255,6 +256,9 @@ def real_downstream(case):
 
             def __exit__(self, *a):
                 return False
+
+            def get_index_statistics(self):
+                return []               # no alignment on a sequence outside the reference (warn_about_skipped_sequences)
 
             def close(self):
                 pass
